@@ -134,6 +134,7 @@ LINE = re.compile(r'^\?([dsp]) odml:(\w+) "(.*)" \.$')
 BIND = re.compile(r'^\?([dsp]) odml:(\w+) \?(\w+) \.$')
 FILT = re.compile(r'^FILTER\(STR\(\?(\w+)\) = "(.*)"\) \.$')
 IDF = re.compile(r'^FILTER\(STRENDS\(STR\(\?([dsp])\), "#(.*)"\)\) \.$')
+IDIRI = re.compile(r'^FILTER\(\?([dsp]) = <https://g-node\.org/odml-rdf#(.*)>\) \.$')
 ROWLABEL = {"Document": "d", "Section": "s", "Property": "p"}
 
 
@@ -167,7 +168,7 @@ def parse_output(text):
                 kind, attr = bound[m.group(1)]
                 pairs.append((kind, (attr, m.group(2))))
                 continue
-            m = IDF.match(ln)
+            m = IDF.match(ln) or IDIRI.match(ln)
             if m:
                 pairs.append((rev[m.group(1)], ("id", m.group(2))))
         kinds = sorted(set(k for k, _ in pairs), key=["Doc", "Sec", "Prop"].index)
@@ -213,10 +214,10 @@ def query_dict(pairs):
 def gen_cases(tier):
     K = 2 if tier == "quick" else 3
     sets = doc_sets()
-    values = {"author": ["x", "y", "z"], "version": ["x", "y", "z"], "date": ["2020-01-02", "1999-12-31", "2001-01-01"],
+    values = {"author": ["x", "y", "z", "D. N. Adams"], "version": ["x", "y", "z"], "date": ["2020-01-02", "1999-12-31", "2001-01-01"],
               "name": ["x", "y", "z"], "type": ["x", "y", "z"], "definition": ["x", "y", "z"], "reference": ["x", "y", "z"],
               "dtype": ["int", "string", "float"], "unit": ["x", "y", "z"], "uncertainty": ["0.5", "2", "7"],
-              "value_origin": ["x", "y", "z"], "id": ["<hit>", "<miss>"]}
+              "value_origin": ["x", "y", "z"], "id": ["<hit>", "<miss>", "<miss with blank>"]}
     queries = []
     for kind in ("Doc", "Sec", "Prop"):
         attrs = list(PRED[kind])
@@ -271,6 +272,8 @@ def fix_ids(documents, pairs):
                     else:
                         ps = tree.children(secs[0])[1]
                         v = ps[0].id if ps else MISS_ID
+            elif v == "<miss with blank>":
+                v = "no such id"
             else:
                 v = MISS_ID
         out.append((kind, (a, v)))
